@@ -842,11 +842,66 @@ def part_heads(ctx, E):
             ctx.disagree("pyStrip", {"chars": c, "s": s}, want, wire.dec_str(o))
 
 
+def part_full_runs(ctx, E):
+    """an override must hold in EVERY round: full three-round runs of the real pipeline with head-count and carcass-weight overrides; every herd
+    simulation of the run (no-feed round, feed round, final round) has to start from the overridden head count and use the overridden weight"""
+    from lib import pipeline
+    rng = ctx.rng
+    heads = E.meta["heads"]
+    cases = [("ARG", {"chicken_head": 0}), ("IRL", {"milk_cattle_head": 500000})]
+    for _ in range(ctx.budget(1, 6)):
+        cases.append((rng.choice(["USA", "IND", "BRA", "FRA", "KEN", "MNG"]), {rng.choice(heads): rng.randrange(1, 10 ** 6) * 7 + 1}))
+    for iso, ov in cases:
+        if rng.random() < 0.5:
+            ov = dict(ov, kg_meat_per_large_animal=float(rng.choice([250, 350, 410])))
+        opts = pipeline.options(NMONTHS=48, shutoff=rng.choice(["long_delayed_shutoff", "continued"]), **ov)
+        run = pipeline.run_scenario(iso, opts)
+        case = {"country": iso, "overrides": ov, "options": {k: v for k, v in opts.items() if pipeline.BASE_OPTIONS.get(k) != v}}
+        if run.error and not run.herds:
+            ctx.count("full-run-error:" + run.error.split(":")[0])
+            continue
+        # the first herd simulation is the one part_heads follows the override into; the later ones have to start from the same herds
+        start0 = None
+        for j, (h, a, kw) in enumerate(run.herds):
+            # the head count a species object was built with (the month lists lose their first entry after the run)
+            start = {sp.animal_type: float(getattr(sp, "initital_population")) for sp in h.all_animals if hasattr(sp, "initital_population")}
+            if len(start) != len(h.all_animals):
+                ctx.count("initial-head-count-not-observable")
+                continue
+            if start0 is None:
+                start0 = start
+            for key, val in ov.items():
+                if key.endswith("_head") and key[: -len("_head")] in start and start[key[: -len("_head")]] != float(val):
+                    ctx.violation("override-not-in-every-round", "%s: herd simulation %d of %d of the run is built with %r %s although the option %s=%r was given" % (
+                        iso, j + 1, len(run.herds), start[key[: -len("_head")]], key[: -len("_head")], key, val), dict(case, herd_index=j))
+            for key, val in ov.items():
+                if key.endswith("_head"):
+                    sp = key[: -len("_head")]
+                    if start.get(sp) != start0.get(sp):
+                        ctx.violation("override-not-in-every-round", "%s: herd simulation %d of %d of the run starts %s at %r, the first one at %r (option %s=%r)" % (
+                            iso, j + 1, len(run.herds), sp, start.get(sp), start0.get(sp), key, val), dict(case, herd_index=j))
+                    elif sp not in start and float(val) > 0:
+                        ctx.count("override-species-absent-from-herd")
+            if start != start0:
+                ctx.count("herd-simulations-starting-from-different-herds")
+            if "kg_meat_per_large_animal" in ov:
+                ci = (kw.get("constants_inputs") if "constants_inputs" in kw else (a[5] if len(a) > 5 else None)) or {}
+                got = ci.get("kg_meat_per_large_animal")
+                if got is None or float(got) != float(ov["kg_meat_per_large_animal"]):
+                    ctx.violation("override-not-in-every-round", "%s: herd simulation %d of %d of the run is built without the option kg_meat_per_large_animal=%r (sees %r)" % (
+                        iso, j + 1, len(run.herds), ov["kg_meat_per_large_animal"], got), dict(case, herd_index=j))
+        ctx.case(("full-run-override", iso, tuple(sorted(ov.items()))), nontrivial=len(run.herds) >= 2,
+                 sample={"country": iso, "overrides": ov, "herd_simulations": len(run.herds), "rounds_solved": len(run.solves)})
+        ctx.count("full-runs-with-overrides")
+        ctx.count("full-run-herd-simulations", len(run.herds))
+
+
 def correspondence(ctx):
     E = setup(ctx)
     part_sequences(ctx, E)
     part_dispatch(ctx, E)
     part_heads(ctx, E)
+    part_full_runs(ctx, E)
 
 
 def search(ctx):
@@ -855,7 +910,7 @@ def search(ctx):
         return
     ctx.tier, ctx.quick = ctx.tier, True
     E = setup(ctx)
-    for part in (part_sequences, part_dispatch, part_heads):
+    for part in (part_sequences, part_dispatch, part_heads, part_full_runs):
         try:
             part(ctx, E)
         except Exception as e:  # the model may no longer match the table; the oracles above do not depend on it
